@@ -3,7 +3,7 @@
    (Ref/Stream.v), so the error it reports is the first defect in byte order by construction; the
    crate's model reports exactly that error.  Declarative characterisations: Proofs/RefSpec.v. *)
 From BS Require Import Impl.Visit Ref.Grammar Ref.MetaDefs Proofs.CsDec Proofs.ImplRefLeaf Proofs.Transfer Proofs.Entries
-  Proofs.SpecLemmas Proofs.RefSpec Proofs.ImplRefTx Proofs.ErrSpec Proofs.ImplRefLists Proofs.Propagation Proofs.EvTransfer.
+  Proofs.SpecLemmas Proofs.RefSpec Proofs.ImplRefTx Proofs.ErrSpec Proofs.ImplRefLists Proofs.Propagation Proofs.EvTransfer Proofs.Examples.
 Open Scope N_scope.
 
 (* the model of the crate fails with error e exactly when the reference decoder fails with e,
@@ -81,3 +81,13 @@ Theorem C14_nested_nonminimal_varint : forall p h hdr pre post t opre opost o re
   InLen b ->
   visit_block never (sl p b) h = (Err NonMinimalVarInt, rev (nn_before p hdr pre post t opre opost o) ++ h).
 Proof. exact nested_nonminimal_impl. Qed.
+
+(* non-vacuity: one input for each error kind the property names *)
+Example C14_example :
+  fst (visit_transaction never (sl 0 (firstn 40 ex_tx_bytes)) []) = Err MoreBytesNeeded /\
+  fst (visit_transaction never (sl 0 ([x01; x00; x00; x00; xfd; x01; x00] ++ skipn 5 (enc_tx ex_tx_legacy))) []) = Err NonMinimalVarInt /\
+  fst (visit_transaction never (sl 0 [x01; x00; x00; x00; x00; x07; x00]) []) = Err (UnknownSegwitFlag 7) /\
+  fst (visit_transaction never
+         (sl 0 (enc_tx {| at_version := 2; at_ins := [ex_in2]; at_outs := []; at_form := Segwit [[]]; at_locktime := 0 |})) [])
+  = Err SegwitFlagWithoutWitnesses.
+Proof. split; [exact ex_truncated|split; [exact ex_nonminimal|split; [exact ex_unknown_flag|exact ex_no_witnesses]]]. Qed.
